@@ -331,9 +331,16 @@ void reb_simulation_remove_all_particles(struct reb_simulation* const r){
 	r->N_var 	= 0;
 	free(r->particles);
 	r->particles 	= NULL;
+	reb_tree_delete(r); // The tree refers to particles by index.
 }
 
 int reb_simulation_remove_particle(struct reb_simulation* const r, int index, int keep_sorted){
+	if (index >= (int)r->N || index < 0){
+		char warning[1024];
+        sprintf(warning, "Index %d passed to particles_remove was out of range (N=%d).  Did not remove particle.", index, r->N);
+		reb_simulation_error(r, warning);
+		return 0;
+	}
     if (r->integrator == REB_INTEGRATOR_MERCURIUS){
         keep_sorted = 1; // Force keep_sorted for hybrid integrator
         struct reb_integrator_mercurius* rim = &(r->ri_mercurius);
@@ -402,23 +409,25 @@ int reb_simulation_remove_particle(struct reb_simulation* const r, int index, in
 
 	if (r->N==1){
 	    r->N = 0;
+        if (r->N_active > 0){
+            r->N_active = 0;
+        }
         if(r->free_particle_ap){
             r->free_particle_ap(&r->particles[index]);
         }
+        reb_tree_delete(r); // The tree (if any) only holds the leaf of the removed particle.
 		reb_simulation_warning(r, "Last particle removed.");
 		return 1;
-	}
-	if (index >= (int)r->N || index < 0){
-		char warning[1024];
-        sprintf(warning, "Index %d passed to particles_remove was out of range (N=%d).  Did not remove particle.", index, r->N);
-		reb_simulation_error(r, warning);
-		return 0;
 	}
 	if (r->N_var){
 		reb_simulation_error(r, "Removing particles not supported when calculating MEGNO.  Did not remove particle.");
 		return 0;
 	}
 	if(keep_sorted){
+        if (r->tree_root){
+		    reb_simulation_error(r, "REBOUND cannot remove a particle a tree and keep the particles sorted. Did not remove particle.");
+		    return 0;
+        }
 	    r->N--;
         if(r->free_particle_ap){
             r->free_particle_ap(&r->particles[index]);
@@ -429,10 +438,6 @@ int reb_simulation_remove_particle(struct reb_simulation* const r, int index, in
 		for(unsigned int j=index; j<r->N; j++){
 			r->particles[j] = r->particles[j+1];
 		}
-        if (r->tree_root){
-		    reb_simulation_error(r, "REBOUND cannot remove a particle a tree and keep the particles sorted. Did not remove particle.");
-		    return 0;
-        }
 	}else{
         if (r->tree_root){
             // Just flag particle, will be removed in update_tree.
@@ -446,6 +451,9 @@ int reb_simulation_remove_particle(struct reb_simulation* const r, int index, in
                 r->free_particle_ap(&r->particles[index]);
             }
 		    r->particles[index] = r->particles[r->N];
+            if (r->N_active > (int)r->N){
+                r->N_active = r->N; // The last active particle has been moved into the hole.
+            }
         }
 	}
 
